@@ -3,10 +3,12 @@
 //! disagreement here is a machinery failure (exit 2), never a verdict about bnum.
 
 use crate::engine::*;
-use crate::sets::{self, Tier};
-use crate::spec;
-use crate::znum::*;
-use crate::{op, BigRef};
+use crate::engine::{Aux, Op, Plan, Run, Subj};
+use crate::op;
+use refmodel::sets::{self, Tier};
+use refmodel::spec;
+use refmodel::znum::*;
+use refmodel::BigRef;
 
 #[derive(Clone, Copy, PartialEq, Debug)]
 pub struct P<T>(pub T);
